@@ -317,6 +317,10 @@ func cmdWorker(args []string) int {
 			w.Trouble = fmt.Sprintf("run %d (seed %d): %s", i, *seed, trouble)
 			break
 		}
+		if res.Trouble != "" {
+			w.Trouble = fmt.Sprintf("run %d (seed %d): harness self-disagreement: %s\n  tree: %s", i, *seed, res.Trouble, res.Desc.Tree)
+			break
+		}
 		if res.Discarded {
 			w.Discarded++
 			continue
